@@ -157,7 +157,7 @@ pub fn apply_ref(op: &OpK, a: &[&T]) -> Result<T, RErr> {
         OpK::Relu => a[0].map(|x| x.relu()),
         OpK::Sigmoid => {
             // saturating inputs are in the domain: the function is bounded
-            dom_bounded(a[0], 1000.0)?;
+            dom_bounded(a[0], 1.0e5)?;
             a[0].map(|x| x.sigmoid())
         }
         OpK::Softmax => {
